@@ -75,7 +75,12 @@ CFuncs == { [k |-> "cfunc", cls |-> c, v |-> n] :
               <<c, n>> \in { <<"builtin", "math.sin">>, <<"builtin", "math.cos">>, <<"builtin", "len">>, <<"builtin", "abs">>,
                              <<"ufunc", "np.add">>, <<"ufunc", "np.multiply">>,
                              <<"method_descriptor", "str.upper">>, <<"method_descriptor", "str.lower">>,
-                             <<"itemgetter", "itemgetter(0)">>, <<"itemgetter", "itemgetter(1)">> } }
+                             <<"itemgetter", "itemgetter(0)">>, <<"itemgetter", "itemgetter(1)">>,
+                             \* C-level value objects (no instance dictionary): their content is the value
+                             <<"Decimal", "Decimal('1.5')">>, <<"Decimal", "Decimal('2.5')">>,
+                             <<"array", "array('i', [1])">>, <<"array", "array('i', [2])">>,
+                             <<"bytearray", "bytearray(b'a')">>, <<"bytearray", "bytearray(b'b')">>,
+                             <<"deque", "deque([1])">>, <<"deque", "deque([2])">> } }
 Partials == { [k |-> "partial", fn |-> [k |-> "func", v |-> f, cells |-> <<>>], v |-> <<x>>] :
                 f \in {"f_kwd", "f_two"}, x \in Atoms(2) }
 ExtAtoms ==
